@@ -16,6 +16,7 @@ mod c16;
 mod c17;
 mod c18;
 mod c19;
+mod c20;
 
 use common::ev::{Ctx, Report, Tier};
 use std::time::Instant;
@@ -41,6 +42,7 @@ fn table() -> Vec<(&'static str, RunFn, ReplayFn)> {
         ("C17", c17::run as RunFn, c17::replay as ReplayFn),
         ("C18", c18::run as RunFn, c18::replay as ReplayFn),
         ("C19", c19::run as RunFn, c19::replay as ReplayFn),
+        ("C20", c20::run as RunFn, c20::replay as ReplayFn),
     ]
 }
 
@@ -93,7 +95,11 @@ fn main() {
     let seed = std::env::var("VERIF_SEED").ok().and_then(|s| s.parse().ok()).unwrap_or(0u64);
     let ctx = Ctx { tier, seed };
     let started = Instant::now();
-    let rep = match std::panic::catch_unwind(|| run(&ctx)) {
+    // The library prints progress lines with println!; keep stdout for the verdict lines only.
+    let saved_stdout = silence_stdout();
+    let result = std::panic::catch_unwind(|| run(&ctx));
+    restore_stdout(saved_stdout);
+    let rep = match result {
         Ok(r) => r,
         Err(_) => {
             eprintln!("MACHINERY-ERROR property={prop} checker panicked: {:?}", LAST_PANIC.lock().unwrap());
@@ -102,4 +108,33 @@ fn main() {
     };
     let code = common::ev::finish(prop, &ctx, rep, started);
     std::process::exit(code);
+}
+
+fn silence_stdout() -> i32 {
+    use std::io::Write;
+    if std::env::var("VERIF_KEEP_STDOUT").is_ok() {
+        return -1;
+    }
+    let _ = std::io::stdout().flush();
+    unsafe {
+        let saved = libc::dup(1);
+        let devnull = libc::open(b"/dev/null\0".as_ptr() as *const libc::c_char, libc::O_WRONLY);
+        if saved >= 0 && devnull >= 0 {
+            libc::dup2(devnull, 1);
+            libc::close(devnull);
+        }
+        saved
+    }
+}
+
+fn restore_stdout(saved: i32) {
+    use std::io::Write;
+    if saved < 0 {
+        return;
+    }
+    let _ = std::io::stdout().flush();
+    unsafe {
+        libc::dup2(saved, 1);
+        libc::close(saved);
+    }
 }
